@@ -127,6 +127,7 @@ TIME = {
     'time.Unix': lambda ex, st, a, ins: TimeV(T(a[0]) * T(10**9) + T(a[1])),
     '(time.Duration).Seconds': lambda ex, st, a, ins: z3.fpSignedToFP(z3.RNE(), tobv(a[0]), z3.Float64()) / z3.FPVal(1e9, z3.Float64()),
     'time.Sleep': lambda ex, st, a, ins: None,
+    'time.After': lambda ex, st, a, ins: Ptr(st.alloc({'chan': [], 'room': None, 'tick': z3.Bool(fresh_name(st, 'timer.fires.first'))})),
     re.compile(r'^\(time\.(Time|Duration)\)\.(String|Format|GoString|MarshalJSON)$'): lambda ex, st, a, ins: fresh_str(st, 'timefmt'),
 }
 
